@@ -12,3 +12,9 @@ claim("C14",
       "Decides that no code path can hand a path derived from the configuration file, the lease database or a filter-list file to anything but the atomic replace primitives (renameio via maybe.WriteFile / aghrenameio pending files), that each of the three keeps an atomic writer, that the unix wrappers resolve to renameio's temp-file + atomic-rename calls, and that a pending file is always closed-and-replaced or cleaned up. "
       "This is the structural necessary condition for the crash_points quantifier: replacing the atomic writer by a truncate-and-write, or renaming the live file away before the replace, is exactly what tests cannot see and what the rule reports. The crash semantics of rename/fsync themselves (renameio, the filesystem) are trusted, and Windows is out of scope as documented upstream.",
       "DESIGN.md §5 C14")
+
+claim("C13",
+      "panic-obligation discharge on SSA (non-nil map dataflow with verified accessor summaries and static folding of type assertions) + table/stamp agreement + return-shape check (static analysis)",
+      "Decides, for every function of the upgrade package including each generic instantiation, that no map store can hit a nil map, no possibly-nil map value enters the document, no single-result type assertion / explicit panic / unchecked index exists, that every error return of the upgrade hands back the original bytes, and that the step table is complete, indexed only after version validation, and that slot i stamps version i+1 on every successful path. "
+      "These are the structural necessary conditions of 'never panics', 'fails leaving the content unchanged' and 'stamped with the current schema version' over all YAML inputs; path independence, idempotence, preservation of unrelated settings and loader acceptance are value-level and not decided.",
+      "DESIGN.md §5 C13")
